@@ -263,6 +263,10 @@ impl Layer {
     pub fn swap_char(&mut self, pos1: impl Into<Position>, pos2: impl Into<Position>) {
         let pos1 = pos1.into();
         let pos2 = pos2.into();
+        let area = Rectangle::from_min_size((0, 0), self.get_size());
+        if !area.is_inside(pos1) || !area.is_inside(pos2) {
+            return;
+        }
         let tmp = self.get_char(pos1);
         self.set_char(pos1, self.get_char(pos2));
         self.set_char(pos2, tmp);
